@@ -145,3 +145,42 @@ EXTRA5 = {
 for _i, _t in EXTRA5.items():
     CHECKS[_i]["text"] += _t
 CHECKS["C19"]["note"] = CHECKS["C19"]["note"].replace("Table variables/constants are only checked for validity (the statement covers functions and types).", "Table variables/constants without a reference value are only checked for validity.")
+EXTRA6 = {
+ "C01": " Sixth round: script goroutines that share nothing but the interpreter keep defining functions of many parameters; a fault in a map the interpreter keeps for itself is a crash.",
+ "C02": " Sixth round: a module written after a failed path through it, functions called once by an earlier run, deferred spread calls, the target of an ok flag being evaluated.",
+ "C04": " Sixth round: sub-check assigns (every assigning form, v, ok = m[k] and Go write-backs through &name among them, on names bound in an enclosing scope inside every block form).",
+ "C06": " Sixth round: sub-check foreign (laws over functions, structs, arrays, channels, pointers and pointers to pointers), same-kind Go values up to MaxUint64 against Go's ==, white-space-padded numerals where both readings agree.",
+ "C07": " Sixth round: the in operator, keys that can be the key of no map, every op= shorthand with the clause op-assign-order.",
+ "C08": " Sixth round: all eight C-for header forms.",
+ "C09": " Sixth round: a failing operand in the middle of a compound expression, runtime errors raised by the interpreter's own operations, deferred stores into returned typed elements and struct fields.",
+ "C10": " Sixth round: sub-check basictypes (containers and struct fields over every basic type name against Go's types and conversions).",
+ "C11": " Sixth round: one-character strings into byte / rune parameters (error or exactly that character), callbacks of 4-7 parameters, sub-check gocall (calls launched with go).",
+ "C13": " Sixth round: modules, path lookups, the define-global family, built-in type names.",
+ "C14": " Sixth round: sub-check objects (objects made by package constructors, observed, changed and observed again in fresh environments and concurrently).",
+ "C17": " Sixth round: Walk runs guarded; a non-nil result is judged by != nil alone.",
+ "C18": " Sixth round: scripts that write to standard error, log through the bundled log package and re-configure the standard logger.",
+ "C19": " Sixth round: every function entry is compared with the Go identifier of its name (compile-time reference) by type and code pointer.",
+ "C20": " Sixth round: nil channels and nil functions among the typed nils.",
+}
+for _i, _t in EXTRA6.items():
+    CHECKS[_i]["text"] += _t
+EXTRA7 = {
+ "C01": " Seventh round: types of 8 bytes to 1 MiB in every type form; a slot whose content is replaced while a statement is using it.",
+ "C02": " Seventh round: a two-value receive whose value target is a new name.",
+ "C03": " Seventh round: numeric leaves of trees spelled in hexadecimal, binary, leading-zero and exponent forms directly against operators; unparenthesised chains of ?? and ?: over failing, nil, literal-first and identifier operands.",
+ "C04": " Seventh round: sub-check overlap (2-8 concurrent callers of one function value; every invocation sees its own arguments).",
+ "C05": " Seventh round: operands recovered by ?? from a failure inside the expression; sub-checks again (one parsed tree evaluated several times) and parallel (independent interpreters at the same time).",
+ "C06": " Seventh round: non-decimal spellings (hex floats, digit separators, Inf / NaN words) are unequal to every number; sub-check live-slot (in / switch / == agree when the compared expression overwrites the slot the item was read from).",
+ "C07": " Seventh round: slot patterns (one operand read from a slot that a later operand, or the callee, stores into) in every operand position the statement lists.",
+ "C09": " Seventh round: deferred calls whose arguments are read from slots stored into later (variadic, wide, Go callees; spread lists).",
+ "C10": " Seventh round: sub-check refstore (maps and slices held in variables stored into typed and untyped places, mirrored on real Go values).",
+ "C11": " Seventh round: sub-checks vcallbacks (variadic Go func types) and liveargs (an earlier argument read from a place a later argument overwrites).",
+ "C12": " Seventh round: reflect.Values that cannot be handed out again are invalid requests; external lookups of every Go representation (pointer, named map, struct value, named func).",
+ "C13": " Seventh round: SetExternalLookup among the operations; Set / Addr / DeleteGlobal through a fetched module against a path walking down into it.",
+ "C16": " Seventh round: go calls of variadic workers with arguments read from list and typed-slice elements.",
+ "C17": " Seventh round: sub-check together (2-8 goroutines walk one freshly parsed tree at the same moment; each is judged like a solitary walk).",
+ "C19": " Seventh round: range with a wrong-type argument at every position; sub-check conv_overlap (conversion builtins called at the same time, each judged against its own argument).",
+ "C20": " Seventh round: sub-check held (the place an operand came from is overwritten after the operand was bound or used; baseline over a plain variable).",
+}
+for _i, _t in EXTRA7.items():
+    CHECKS[_i]["text"] += _t
